@@ -26,11 +26,11 @@ BOUNDS = {
     "quick": {"N": [2, 3], "layouts": "all 16 position subsets containing center", "extra_dims": "0 or 1 (size 2), every interleaving",
               "axes": "1 axis (all shifts, all operators, rules per call and as grid default); 2 axes in both orders",
               "data": "all real values (symbolic)", "fill_value": "per call: symbolic; grid default: concrete 0 / 2.5"},
-    "thorough": {"N": [2, 3, 4], "layouts": "all 16", "extra_dims": "0..2 (sizes 1-2), every interleaving",
+    "thorough": {"N": [2, 3, 4, 5], "layouts": "all 16", "extra_dims": "0..3 (sizes 1-2), every interleaving (N=5: 0..1)",
                  "axes": "1, 2 and 3 axes in every order", "data": "all real values (symbolic)",
                  "fill_value": "per call: symbolic; grid default: concrete 0 / 2.5"},
 }
-OUTSIDE = ["N > 4", "more than 2 extra dimensions", "floating-point rounding/overflow", "NaN/inf data",
+OUTSIDE = ["N > 5", "more than 3 extra dimensions", "floating-point rounding/overflow", "NaN/inf data",
            "symbolic grid-level default fill value (Axis insists on int|float)"]
 ASSUMPTIONS = ["input data finite"]
 
@@ -48,11 +48,13 @@ CALL_RULES_LIGHT = [None, "fill+fv"]
 
 def cases(tier):
     out = []
-    Ns = [2, 3] if tier == "quick" else [2, 3, 4]
+    Ns = [2, 3] if tier == "quick" else [2, 3, 4, 5]
     for N in Ns:
         for layout in layouts():
             for gm in GMODES:
-                extras = [[], [["t", 2]]] if tier == "quick" else [[], [["t", 2]], [["t", 1], ["s", 2]]]
+                extras = [[], [["t", 2]]] if tier == "quick" else [[], [["t", 2]], [["t", 1], ["s", 2]], [["t", 2], ["s", 1], ["r", 2]]]
+                if tier == "thorough" and N == 5:
+                    extras = extras[:2]
                 for extra in extras:
                     n_orders = len(interleavings(["x"], [e[0] for e in extra]))
                     for oi in range(n_orders):
@@ -60,7 +62,10 @@ def cases(tier):
     # multi-axis
     two = [(("center", "left"), ("center", "outer")), (("center", "right", "inner"), ("center", "left", "right")),
            (("center", "outer", "inner"), ("center", "right"))]
-    for N in ([2, 3] if tier == "quick" else [2, 3]):
+    if tier == "thorough":
+        two = two + [(("center", "left", "right", "inner", "outer"), ("center", "inner")), (("center", "outer"), ("center", "left", "right", "inner", "outer")),
+                     (("center", "inner", "right"), ("center", "outer", "left"))]
+    for N in ([2, 3] if tier == "quick" else [2, 3, 4]):
         for lx, ly in two:
             for gm in ("periodic", "fill25", "nonper"):
                 for axorder in (["X", "Y"], ["Y", "X"]):
